@@ -815,6 +815,38 @@ func genTables(r *pkg) string {
 						vals = append(vals, v)
 					}
 					if all {
+						// the loop variables must not be assigned, redeclared or have their address taken in the body
+						ast.Inspect(rs.Body, func(z ast.Node) bool {
+							bad := func(e ast.Expr) {
+								if id, ok := e.(*ast.Ident); ok && (id.Name == vid.Name || (kid.Name != "_" && id.Name == kid.Name)) {
+									regOK = false
+								}
+							}
+							switch w := z.(type) {
+							case *ast.AssignStmt:
+								for _, l := range w.Lhs {
+									bad(l)
+								}
+							case *ast.IncDecStmt:
+								bad(w.X)
+							case *ast.UnaryExpr:
+								if w.Op == token.AND {
+									bad(w.X)
+								}
+							case *ast.ValueSpec:
+								for _, nm := range w.Names {
+									bad(nm)
+								}
+							case *ast.RangeStmt:
+								if w.Key != nil {
+									bad(w.Key)
+								}
+								if w.Value != nil {
+									bad(w.Value)
+								}
+							}
+							return true
+						})
 						for i, v := range vals {
 							env2 := map[string]int64{}
 							for k, w := range env {
